@@ -517,6 +517,11 @@ inductive BranchStore where
   | both | trueOnly | falseOnly | never | unrecognised
   deriving DecidableEq, Repr
 
+/-- `q, r := hp.F(…)` (aAssignX under a defineXStmt): when the cell of a declared variable is re-created before the result is stored -/
+inductive DefineCell where
+  | always | whenNonZero | never | unrecognised
+  deriving DecidableEq, Repr
+
 /-- the choices of the source text (regenerated by extract/cmd/c07) -/
 structure Facts where
   arms : List Arm                 -- inner switch of callBin, in order
@@ -551,6 +556,7 @@ structure Facts where
   returnDstIdx : IExpr            -- aReturn: f.data[b+i]
   returnBaseIsChildPos : Bool     -- b := childPos(n)
   defaultDstIdx : IExpr           -- default: data[n.findex+i]
+  defineXCell : DefineCell        -- aAssignX, defineXStmt && !c.redeclared: data[c.findex] = reflect.New(…).Elem() before the store, unconditionally
   branchDstIdx : IExpr            -- branch arm: index := n.findex; getFrame(f, level).data[index].SetBool(b)
   branchStore : BranchStore       -- … written before `if b { return tnext }; return fnext`: on both outcomes
   nestedReadIdx : IExpr           -- consumer of nested call results: ind := c.findex + j
@@ -769,6 +775,40 @@ def branchStep (s : BranchStore) (slot r : Bool) : Bool :=
 def branchReadsY (s : BranchStore) : Bool → List Bool → List Bool
   | _, [] => []
   | slot, r :: rs => branchStep s slot r :: branchReadsY s (branchStep s slot r) rs
+
+/-! ### `q, r := hp.F(…)` executed repeatedly in one frame, the variables of earlier executions still referenced
+
+  Each execution of a short variable declaration declares NEW variables; a pointer to, or a closure over, the variable of an
+  earlier execution must keep seeing that execution's value. callBin stores the results into the frame cells of the declared
+  variables, after re-creating the cell. -/
+
+mutual
+  /-- the zero value of its type (what reflect.Value.IsZero answers), on representations -/
+  def isZeroRep : Rep → Bool
+    | .int n => n == 0
+    | .nil => true
+    | .tuple xs => isZeroRepL xs
+    | _ => false
+  def isZeroRepL : RepL → Bool
+    | .nil => true
+    | .cons r rs => isZeroRep r && isZeroRepL rs
+end
+
+/-- does the next execution give the variable a new cell, given what the current cell holds -/
+def DefineCell.recreates (m : DefineCell) (cur : Rep) : Bool :=
+  match m with
+  | .always => true
+  | .whenNonZero => !isZeroRep cur
+  | _ => false
+
+/-- `rs`: the result stored into one declared variable by the successive executions. What the reference taken after each
+    execution (a pointer to the variable, a closure over it) reads once ALL executions are done: if the next execution does not
+    re-create the cell, the reference shares the cell with the next one. -/
+def defineReadsY (m : DefineCell) : List Rep → List Rep
+  | [] => []
+  | [r] => [r]
+  | r :: r' :: rest =>
+    (if m.recreates r then r else (defineReadsY m (r' :: rest)).headD r) :: defineReadsY m (r' :: rest)
 
 /-- how the enclosing construct consumes the call's result: `if` / `for` / `!` and a right operand only follow the branch the
     call took (tnext / fnext); `&&` / `||` with the call as LEFT operand read the call's cell again when they compute their value
